@@ -1,7 +1,7 @@
 (** Dispatch2.v — entry points of the models added after Dispatch.v (DER/token keys, hashes, key blinding, ...).
     [dispatch2] is what the OCaml runner calls; unknown names fall through to [dispatch]. *)
 From Coq Require Import Strings.String.
-From PatVerif Require Import Base.GoSem Model.Dispatch Model.TokenKey Model.Codecs Model.Derive.
+From PatVerif Require Import Base.GoSem Model.Dispatch Model.TokenKey Model.Codecs Model.Derive Model.Ed25519.
 Open Scope N_scope.
 
 Definition out_z (z : Z) : list (list byte) :=
@@ -49,6 +49,20 @@ Definition dispatch_derive (name : list byte) (a : list (list byte)) : option (l
   else if is name "xmd" then Some [expand_message_xmd (curve_hash (narg a 0)) (arg a 1) (arg a 2) (N.to_nat (narg a 3))]
   else None.
 
+Definition dispatch_ed (name : list byte) (a : list (list byte)) : option (list (list byte)) :=
+  if is name "ed_sign_prep" then           (* seed msg -> secret scalar, nonce *)
+    Some [le_enc 32 (ed_secret_scalar (arg a 0)); le_enc 32 (ed_nonce (ed_prefix (arg a 0)) (arg a 1))]
+  else if is name "ed_blind_sign_prep" then (* seed blind context msg -> factor, blinded secret, nonce *)
+    Some [le_enc 32 (ed_blind_factor (arg a 1) (arg a 2)); le_enc 32 (ed_blind_secret (arg a 0) (arg a 1) (arg a 2));
+          le_enc 32 (ed_nonce (ed_blind_prefix (arg a 0) (arg a 1) (arg a 2)) (arg a 3))]
+  else if is name "ed_signature" then       (* R A msg s nonce -> 64 bytes *)
+    Some [ed_signature (arg a 0) (arg a 1) (arg a 2) (le_dec (arg a 3)) (le_dec (arg a 4))]
+  else if is name "ed_hram" then Some [le_enc 32 (ed_hram (arg a 0) (arg a 1) (arg a 2))]
+  else if is name "ed_is_reduced" then Some [if is_reduced (arg a 0) then st_ok else st_none]
+  else if is name "ed_clamp" then Some [le_enc 32 (clamp (arg a 0))]
+  else None.
+
 Definition dispatch2 (name : list byte) (a : list (list byte)) : list (list byte) :=
   match dispatch_tokenkey name a with Some r => r | None =>
-  match dispatch_derive name a with Some r => r | None => dispatch name a end end.
+  match dispatch_derive name a with Some r => r | None =>
+  match dispatch_ed name a with Some r => r | None => dispatch name a end end end.
